@@ -9,12 +9,20 @@ Streams (three-way, DESIGN 5.C02)
   oracle   the property itself: the class of the run-time value is among the definitions infer
            reports and points at the statement that created it; in programs without conditionals
            infer reports exactly that class
+  bind     argument-to-parameter binding: the REAL get_executed_param_names_and_issues (run
+           in-process on a FunctionValue / TreeArguments obtained the way jedi obtains them) vs
+           Model.ArgBind.bindJ - exact, every parameter, every issue - on ALL small signatures x
+           ALL small calls (accepted by CPython or not) and random larger ones
+  bindpy   CPython itself (a real function returning its locals is called) vs Model.ArgBind.bindPy,
+           exact, TypeError <-> none, on the same inputs - validates the specification
+  argbind  the direct oracle on argument binding: run the program, Script.infer on every
+           parameter / element of *args / value of **kwargs; functions, methods, lambdas
 """
 import common
 from common import short
 from gen import pycore as P
 
-MODELS = ['PyCore']
+MODELS = ['PyCore', 'ArgBind']
 LEAN_TARGETS = ['JediModel.Props.C02', 'JediModel.Drivers.C02']
 MANIFEST = dict(
     text='Theorem may_sound_partial over Model/PyCore: for every program of the pure core (literals, names, tuples, '
@@ -27,7 +35,16 @@ MANIFEST = dict(
          'is false (kernel-checked witness, replayed on the real code). Both interpreters share one fuel-indexed '
          'skeleton; induction on fuel. '
          'Tie: jedi = mayE (exact, modulo the API-level merge of a class with its instance) and CPython = evalC '
-         '(exact, nested shapes) on generated programs.',
+         '(exact, nested shapes) on generated programs. '
+         'Argument binding (Model/ArgBind): bind_agrees_partial - for EVERY grammatical signature (any number of '
+         'positional parameters, defaults, *args, keyword-only parameters, **kwargs) and EVERY call with distinct '
+         'keywords that CPython accepts, bindJ (statement-by-statement transcription of '
+         'param.py:get_executed_param_names_and_issues with its PushBackIterator, instantiated with constants read '
+         'from the source) binds every parameter to exactly what CPython binds (bindPy); proved by induction over '
+         'the parameter loop with an invariant on the iterator / keys_used / non_matching_keys; hypothesis '
+         'kwsAvoidStarNames is forced (bind_agrees_full_witness: `def f(**kw)` / `f(kw=A)`, replayed on the real '
+         'code); bind_best_effort, bindJ_total, bind_without_push_back_loses_keyword, bind_source_is_modelled. '
+         'Tie: the real function = bindJ and CPython = bindPy, both exact, on all small signatures x calls.',
     note='Modelled not verified: only the PyCore fragment is under the theorem (no loops, attribute writes outside __init__, '
          'generators, decorators, containers other than tuples, multi-module). The pretty-printer of the harness '
          'and the name<->index mapping are trusted. Outside the fragment: nothing is claimed.',
@@ -584,8 +601,11 @@ def run(ctx):
                 ctx.fail('oracle', 'only one value can reach the expression but infer reports more',
                          case, expected=[rt], observed=rec['jedi'], how=how)
     ctx.obligations['assumptions'] = [
-        'stream argbind (argument binding with defaults, *args, keyword-only, **kwargs) has no Lean model: it is '
-        'the direct oracle on code the PyCore fragment does not cover',
+        'argument binding: the model covers calls without */** unpacking to functions whose parameters are '
+        'plain, *args, keyword-only or **kwargs (no positional-only `/`); how a bound lazy value is then inferred '
+        '(FakeTuple / FakeDict indexing, defaults evaluated in the defining context), methods (bound self) and '
+        'lambdas are covered by the direct oracle only; one calling node per call; keyword names are non-empty '
+        '(`if key:` is modelled as `key is not None`)',
         'PyCore programs are generated in SSA form (every module-level name bound once) with parameter, attribute '
         'and module name pools disjoint; the abstract program, its printed source and its encoding for the model '
         'come from harness/gen/pycore.py and harness/props/c02.py:encode (trusted)',
